@@ -65,6 +65,8 @@ def with_prefix(events):
     """insert the creation of p1 (with mass and density) before its first use"""
     out, made = [], False
     for e in events:
+        if e[0] == "new" and e[1] == "p1":
+            made = True
         uses = (e[0] in ("read", "has") and e[1] == "p1") or (e[0] in ("init", "calc") and e[2] == "p1")
         if uses and not made:
             out += PRIV_PREFIX("p1")
